@@ -1,1 +1,566 @@
-//! c10 — harnesses not written yet.
+//! C10 — conditions decide what their names say; loops make exactly n passes.
+//! Code: mahf::conditions::common::{LessThanN,EveryN,ChangeOf,PartialEqChecker,DeltaEqChecker,OptimumReached,RandomChance}::{init,evaluate,from_params}
+//! Code: mahf::conditions::logical::{And,Or,Not} (+ the & | ! operators), mahf::components::Loop, mahf::state::common::{Iterations,Evaluations,Progress}, mahf::lens::ValueOf
+//! Out: And/Or over several operands and the loop harnesses are thorough-tier, best effort (every `dyn Condition` call may dispatch back to And/Or/Not::evaluate, and the engine explores that recursion to the unwind bound: the 2-operand And ran out of 6 GB); quick tier decides Not only; EveryN with n = 0 (division by zero; the statement speaks of multiples of n); RandomChance with p outside [0,1] (Bernoulli::new panics; undocumented precondition)
+//! Assume: one evaluation of each condition from a prepared one-scope state with symbolic observed value and parameters; change-of over symbolic histories of length 3; logical formulas over counting operands with symbolic answers
+use better_any::{Tid, TidAble};
+use derive_more::{Deref, DerefMut};
+use mahf::components::{Component, Loop};
+use mahf::conditions::common::{DeltaEqChecker, PartialEqChecker};
+use mahf::conditions::{And, ChangeOf, Condition, EveryN, LessThanN, Not, OptimumReached, Or, RandomChance};
+use mahf::lens::ValueOf;
+use mahf::problems::{KnownOptimumProblem, Problem};
+use mahf::state::common::{BestIndividual, Evaluations, Iterations, Progress};
+use mahf::state::StateReq;
+use mahf::{CustomState, ExecResult, Individual, SingleObjective, State};
+use serde::Serialize;
+
+use crate::problems::{obj, TagP};
+use crate::rng::{draws, sym_random};
+use crate::sym;
+
+fn ok_bool(r: ExecResult<bool>) -> bool {
+    match r {
+        Ok(b) => b,
+        Err(_) => {
+            assert!(false, "the condition evaluates without error on a prepared state");
+            false
+        }
+    }
+}
+
+// ---- LessThanN / EveryN ------------------------------------------------------------------------------
+
+/// @h tier=quick bound="every n: u32, every Iterations value: u32" unwind=4 cost=2
+#[cfg_attr(kani, kani::proof)]
+#[cfg_attr(kani, kani::unwind(4))]
+pub fn h_c10_lessthan_iterations() {
+    let (n, v) = (sym::u32(), sym::u32());
+    let c = LessThanN::iterations::<TagP>(n);
+    let mut s: State<TagP> = State::new();
+    s.insert(Iterations(v));
+    assert!(c.init(&TagP, &mut s).is_ok(), "init succeeds");
+    assert!(s.try_get_value::<Iterations>().ok() == Some(v), "init does not touch the observed counter");
+    let r = ok_bool(c.evaluate(&TagP, &mut s));
+    assert!(r == (v < n), "less-than-n is true exactly while the observed value is below n");
+    vcover!(r, "true");
+    vcover!(!r && v == n, "false at the boundary");
+    std::mem::forget((s, c));
+}
+
+/// @h tier=quick bound="every n: u32, every Evaluations value: u32" unwind=4 cost=2
+#[cfg_attr(kani, kani::proof)]
+#[cfg_attr(kani, kani::unwind(4))]
+pub fn h_c10_lessthan_evaluations() {
+    let (n, v) = (sym::u32(), sym::u32());
+    let c = LessThanN::evaluations::<TagP>(n);
+    let mut s: State<TagP> = State::new();
+    s.insert(Evaluations(v));
+    assert!(c.init(&TagP, &mut s).is_ok(), "init succeeds");
+    let r = ok_bool(c.evaluate(&TagP, &mut s));
+    assert!(r == (v < n), "less-than-n is true exactly while the observed value is below n");
+    vcover!(r, "true");
+    std::mem::forget((s, c));
+}
+
+fn progress(n: u32) {
+    let v = sym::u32();
+    let c = LessThanN::iterations::<TagP>(n);
+    let mut s: State<TagP> = State::new();
+    s.insert(Iterations(v));
+    assert!(c.init(&TagP, &mut s).is_ok(), "init succeeds");
+    assert!(s.try_get_value::<Progress<ValueOf<Iterations>>>().ok() == Some(0.0), "progress starts at 0");
+    let _ = ok_bool(c.evaluate(&TagP, &mut s));
+    let p = s.try_get_value::<Progress<ValueOf<Iterations>>>().ok();
+    assert!(p == Some(v as f64 / n as f64), "progress is value / n");
+    if v == n {
+        assert!(p == Some(1.0), "progress is 1 when the bound is reached");
+    }
+    vcover!(v == n, "at the bound");
+    std::mem::forget((s, c));
+}
+/// @h tier=quick bound="n = 4, every Iterations value" unwind=4 cost=2
+#[cfg_attr(kani, kani::proof)]
+#[cfg_attr(kani, kani::unwind(4))]
+pub fn h_c10_progress_n4() {
+    progress(4)
+}
+/// @h tier=quick bound="n = 1000, every Iterations value" unwind=4 cost=2
+#[cfg_attr(kani, kani::proof)]
+#[cfg_attr(kani, kani::unwind(4))]
+pub fn h_c10_progress_n1000() {
+    progress(1000)
+}
+/// @h tier=quick bound="no Progress state (condition used without init): nothing is inserted" unwind=4 cost=2
+#[cfg_attr(kani, kani::proof)]
+#[cfg_attr(kani, kani::unwind(4))]
+pub fn h_c10_progress_absent() {
+    let (n, v) = (sym::u32(), sym::u32());
+    let c = LessThanN::iterations::<TagP>(n);
+    let mut s: State<TagP> = State::new();
+    s.insert(Iterations(v));
+    let r = ok_bool(c.evaluate(&TagP, &mut s));
+    assert!(r == (v < n), "still decides correctly");
+    assert!(!s.contains::<Progress<ValueOf<Iterations>>>(), "no progress state is invented");
+    vcover!(true, "reached");
+    std::mem::forget((s, c));
+}
+
+/// @h tier=thorough bound="every n >= 1, every Iterations value" unwind=4 cost=9 timeout=2400 mem=28
+#[cfg_attr(kani, kani::proof)]
+#[cfg_attr(kani, kani::unwind(4))]
+pub fn h_c10_every_n() {
+    let (n, v) = (sym::u32(), sym::u32());
+    sym::assume(n >= 1);
+    let c = EveryN::iterations::<TagP>(n);
+    let mut s: State<TagP> = State::new();
+    s.insert(Iterations(v));
+    assert!(c.init(&TagP, &mut s).is_ok(), "init succeeds");
+    let r = ok_bool(c.evaluate(&TagP, &mut s));
+    assert!(r == (v % n == 0), "every-n is true exactly on multiples of n");
+    vcover!(r && v > n, "a proper multiple");
+    vcover!(!r, "not a multiple");
+    std::mem::forget((s, c));
+}
+
+fn every_n_concrete(n: u32) {
+    let v = sym::u32();
+    let c = EveryN::iterations::<TagP>(n);
+    let mut s: State<TagP> = State::new();
+    s.insert(Iterations(v));
+    assert!(c.init(&TagP, &mut s).is_ok(), "init succeeds");
+    let r = ok_bool(c.evaluate(&TagP, &mut s));
+    assert!(r == (v % n == 0), "every-n is true exactly on multiples of n");
+    vcover!(r && v > n, "a proper multiple");
+    vcover!(!r || n == 1, "not a multiple");
+    std::mem::forget((s, c));
+}
+/// @h tier=quick bound="n = 1, every Iterations value" unwind=4 cost=2
+#[cfg_attr(kani, kani::proof)]
+#[cfg_attr(kani, kani::unwind(4))]
+pub fn h_c10_every_1() {
+    every_n_concrete(1)
+}
+/// @h tier=quick bound="n = 3, every Iterations value" unwind=4 cost=2
+#[cfg_attr(kani, kani::proof)]
+#[cfg_attr(kani, kani::unwind(4))]
+pub fn h_c10_every_3() {
+    every_n_concrete(3)
+}
+/// @h tier=quick bound="n = 10, every Iterations value" unwind=4 cost=2
+#[cfg_attr(kani, kani::proof)]
+#[cfg_attr(kani, kani::unwind(4))]
+pub fn h_c10_every_10() {
+    every_n_concrete(10)
+}
+/// @h tier=quick bound="every n in 1..=255, every Iterations value below 2^16" unwind=4 cost=4 timeout=600
+#[cfg_attr(kani, kani::proof)]
+#[cfg_attr(kani, kani::unwind(4))]
+pub fn h_c10_every_small() {
+    let (n, v) = (sym::u8() as u32, sym::u16() as u32);
+    sym::assume(n >= 1);
+    let c = EveryN::iterations::<TagP>(n);
+    let mut s: State<TagP> = State::new();
+    s.insert(Iterations(v));
+    let r = ok_bool(c.evaluate(&TagP, &mut s));
+    assert!(r == (v % n == 0), "every-n is true exactly on multiples of n");
+    vcover!(r && v > n, "a proper multiple");
+    std::mem::forget((s, c));
+}
+
+// ---- OptimumReached ---------------------------------------------------------------------------------------
+
+pub struct OptP(pub f64);
+impl Problem for OptP {
+    type Encoding = u8;
+    type Objective = SingleObjective;
+    fn name(&self) -> &str {
+        "OptP"
+    }
+}
+impl KnownOptimumProblem for OptP {
+    fn known_optimum(&self) -> SingleObjective {
+        obj(self.0)
+    }
+}
+
+/// @h tier=quick bound="every legal best value (or none / no state), every finite optimum, every epsilon" unwind=4 cost=3
+#[cfg_attr(kani, kani::proof)]
+#[cfg_attr(kani, kani::unwind(4))]
+pub fn h_c10_optimum_reached() {
+    let (o, opt, eps) = (sym::legal_f64(), sym::finite_f64(), sym::f64());
+    let which = sym::upto(2);
+    let c = OptimumReached::from_params(eps);
+    assert!(c.is_ok() == (eps >= 0.0), "epsilon must be non-negative (NaN rejected)");
+    let c = match c {
+        Ok(c) => c,
+        Err(_) => return,
+    };
+    let p = OptP(opt);
+    let mut s: State<OptP> = State::new();
+    let mut b = BestIndividual::<OptP>::new();
+    if which == 2 {
+        b.update(&Individual::new(0u8, obj(o)));
+    }
+    if which >= 1 {
+        s.insert(b);
+    }
+    let r = ok_bool(Condition::<OptP>::evaluate(&c, &p, &mut s));
+    if which == 2 {
+        assert!(r == (o <= opt + eps), "optimum-reached is true exactly when the best value is within epsilon of the known optimum");
+    } else {
+        assert!(!r, "no best value: not reached");
+    }
+    vcover!(r, "reached");
+    vcover!(which == 2 && !r, "not reached");
+    std::mem::forget((s, p));
+}
+
+// ---- RandomChance ----------------------------------------------------------------------------------------------
+
+/// @h tier=quick bound="every p in [0,1], every 64-bit generator output" unwind=4 cost=3
+#[cfg_attr(kani, kani::proof)]
+#[cfg_attr(kani, kani::unwind(4))]
+pub fn h_c10_random_chance() {
+    let p = sym::f64();
+    sym::assume(p >= 0.0 && p <= 1.0);
+    let c = RandomChance::from_params(p);
+    let mut s: State<TagP> = State::new();
+    s.insert(sym_random(1));
+    let r = ok_bool(Condition::<TagP>::evaluate(&c, &TagP, &mut s));
+    if p == 1.0 {
+        assert!(r, "p = 1 always fires");
+    }
+    if p == 0.0 {
+        assert!(!r, "p = 0 never fires");
+    }
+    assert!(draws() <= 1, "at most one generator output per evaluation");
+    vcover!(r && p < 0.001, "rare event reachable");
+    vcover!(!r && p > 0.999, "rare miss reachable");
+    std::mem::forget(s);
+}
+
+/// The set of generator outputs on which the condition fires is a prefix of the output space
+/// whose size grows with p: with the same output, a larger p never turns a hit into a miss.
+/// @h tier=quick bound="every p1 <= p2 in [0,1], every generator output (fed to both)" unwind=4 cost=4
+#[cfg_attr(kani, kani::proof)]
+#[cfg_attr(kani, kani::unwind(4))]
+pub fn h_c10_random_chance_monotone() {
+    let (p1, p2) = (sym::f64(), sym::f64());
+    sym::assume(p1 >= 0.0 && p1 <= p2 && p2 <= 1.0);
+    let d = sym::u64();
+    let fire = |p: f64| -> bool {
+        unsafe {
+            crate::c10::FIXED = d;
+        }
+        let mut s: State<TagP> = State::new();
+        s.insert(mahf::Random::with_rng::<FixedRng>(0));
+        let r = ok_bool(Condition::<TagP>::evaluate(&RandomChance::from_params(p), &TagP, &mut s));
+        std::mem::forget(s);
+        r
+    };
+    let (r1, r2) = (fire(p1), fire(p2));
+    assert!(!r1 || r2, "random-chance fires on a fraction of generator outputs that grows with p");
+    // exact threshold semantics of the fraction
+    let thr = |p: f64| (p * 18446744073709551616.0) as u64;
+    if p1 < 1.0 {
+        assert!(r1 == (d < thr(p1)), "fires exactly on the outputs below p * 2^64");
+    }
+    vcover!(r1, "fires");
+    vcover!(!r2, "misses");
+}
+pub static mut FIXED: u64 = 0;
+pub struct FixedRng;
+impl rand::RngCore for FixedRng {
+    fn next_u32(&mut self) -> u32 {
+        (unsafe { FIXED } >> 32) as u32
+    }
+    fn next_u64(&mut self) -> u64 {
+        unsafe { FIXED }
+    }
+    fn fill_bytes(&mut self, dest: &mut [u8]) {
+        for b in dest {
+            *b = 0;
+        }
+    }
+    fn try_fill_bytes(&mut self, dest: &mut [u8]) -> Result<(), rand::Error> {
+        self.fill_bytes(dest);
+        Ok(())
+    }
+}
+impl rand::SeedableRng for FixedRng {
+    type Seed = [u8; 8];
+    fn from_seed(_: Self::Seed) -> Self {
+        FixedRng
+    }
+    fn seed_from_u64(_: u64) -> Self {
+        FixedRng
+    }
+}
+
+// ---- ChangeOf -------------------------------------------------------------------------------------------------------
+
+#[derive(Clone, Deref, DerefMut, Tid, Serialize)]
+pub struct Val(pub u32);
+impl CustomState<'_> for Val {}
+
+fn change_of(delta: bool) {
+    let (v0, v1, v2) = (sym::u32(), sym::u32(), sym::u32());
+    let t = sym::u32();
+    let c = if delta {
+        ChangeOf::from_params(DeltaEqChecker::new(t), ValueOf::<Val>::new())
+    } else {
+        ChangeOf::from_params(PartialEqChecker::new::<u32>(), ValueOf::<Val>::new())
+    };
+    let differs = |a: u32, b: u32| -> bool {
+        if delta {
+            (if a < b { b - a } else { a - b }) >= t
+        } else {
+            a != b
+        }
+    };
+    let mut s: State<TagP> = State::new();
+    s.insert(Val(v0));
+    assert!(Condition::<TagP>::init(&c, &TagP, &mut s).is_ok(), "init succeeds");
+    let a0 = ok_bool(Condition::<TagP>::evaluate(&c, &TagP, &mut s));
+    assert!(a0, "the first observation is reported");
+    let mut last = v0;
+    s.set_value::<Val>(v1);
+    let a1 = ok_bool(Condition::<TagP>::evaluate(&c, &TagP, &mut s));
+    assert!(a1 == differs(v1, last), "change-of is true exactly when the value differs from the one it last reported (second observation)");
+    if a1 {
+        last = v1;
+    }
+    s.set_value::<Val>(v2);
+    let a2 = ok_bool(Condition::<TagP>::evaluate(&c, &TagP, &mut s));
+    assert!(a2 == differs(v2, last), "change-of compares with the LAST REPORTED value, not the last observed one (third observation)");
+    assert!(s.try_get_value::<Val>().ok() == Some(v2), "the observed state is not modified");
+    vcover!(a1 && a2, "two changes");
+    vcover!(!a1 && a2, "drift reported late");
+    vcover!(!a1 && !a2, "no change");
+    std::mem::forget((s, c));
+}
+/// @h tier=quick bound="PartialEq measure; every history of three u32 values" unwind=4 cost=4
+#[cfg_attr(kani, kani::proof)]
+#[cfg_attr(kani, kani::unwind(4))]
+pub fn h_c10_changeof_partialeq() {
+    change_of(false)
+}
+/// @h tier=quick bound="threshold measure, every threshold; every history of three u32 values" unwind=4 cost=4
+#[cfg_attr(kani, kani::proof)]
+#[cfg_attr(kani, kani::unwind(4))]
+pub fn h_c10_changeof_delta() {
+    change_of(true)
+}
+
+// ---- And / Or / Not -------------------------------------------------------------------------------------------------------
+
+static mut ANS: [bool; 3] = [false; 3];
+static mut EVALS: [u8; 3] = [0; 3];
+static mut INITS: [u8; 3] = [0; 3];
+static mut REQS: [u8; 3] = [0; 3];
+#[derive(Clone, Serialize)]
+pub struct Op<const I: usize>;
+impl<const I: usize> Condition<TagP> for Op<I> {
+    fn init(&self, _p: &TagP, _s: &mut State<TagP>) -> ExecResult<()> {
+        unsafe { INITS[I] += 1 };
+        Ok(())
+    }
+    fn require(&self, _p: &TagP, _r: &StateReq<TagP>) -> ExecResult<()> {
+        unsafe { REQS[I] += 1 };
+        Ok(())
+    }
+    fn evaluate(&self, _p: &TagP, _s: &mut State<TagP>) -> ExecResult<bool> {
+        unsafe {
+            EVALS[I] += 1;
+            Ok(ANS[I])
+        }
+    }
+}
+fn op<const I: usize>() -> Box<dyn Condition<TagP>> {
+    Box::new(Op::<I>)
+}
+fn setup_ops() -> (bool, bool, bool) {
+    let a = (sym::bool(), sym::bool(), sym::bool());
+    unsafe {
+        ANS = [a.0, a.1, a.2];
+        EVALS = [0; 3];
+        INITS = [0; 3];
+        REQS = [0; 3];
+    }
+    a
+}
+fn once(k: usize) -> bool {
+    unsafe {
+        let mut i = 0;
+        let mut ok = true;
+        while i < k {
+            ok &= EVALS[i] == 1;
+            i += 1;
+        }
+        ok
+    }
+}
+fn lifecycle(c: &dyn Condition<TagP>, s: &mut State<TagP>, k: usize) {
+    assert!(c.init(&TagP, s).is_ok(), "init succeeds");
+    assert!(c.require(&TagP, &s.requirements()).is_ok(), "require succeeds");
+    unsafe {
+        let mut i = 0;
+        while i < k {
+            assert!(INITS[i] == 1 && REQS[i] == 1, "init and require are forwarded to every operand exactly once");
+            i += 1;
+        }
+    }
+}
+
+/// @h tier=thorough bound="And over 3 operands, all answers" unwind=5 cost=9 timeout=2400 mem=28
+#[cfg_attr(kani, kani::proof)]
+#[cfg_attr(kani, kani::unwind(5))]
+pub fn h_c10_and3() {
+    let (a, b, c) = setup_ops();
+    let f = And::new([op::<0>(), op::<1>(), op::<2>()]);
+    let mut s: State<TagP> = State::new();
+    lifecycle(&*f, &mut s, 3);
+    let r = ok_bool(f.evaluate(&TagP, &mut s));
+    assert!(r == (a && b && c), "And combines like the Boolean operator");
+    assert!(once(3), "And evaluates every operand exactly once per evaluation (no short-circuit)");
+    vcover!(!a && c, "first false, later true");
+    std::mem::forget((s, f));
+}
+/// Two operands, minimal unwind: every `dyn Condition` call can also dispatch to And/Or/Not
+/// themselves, so the engine explores the recursion up to the unwind bound.
+/// @h tier=thorough bound="And over 2 operands, all answers" unwind=3 cost=9 timeout=2400 mem=28
+#[cfg_attr(kani, kani::proof)]
+#[cfg_attr(kani, kani::unwind(3))]
+pub fn h_c10_and2() {
+    let (a, b, _c) = setup_ops();
+    let f = And::new([op::<0>(), op::<1>()]);
+    let mut s: State<TagP> = State::new();
+    let r = ok_bool(f.evaluate(&TagP, &mut s));
+    assert!(r == (a && b), "And combines like the Boolean operator");
+    assert!(once(2), "And evaluates every operand exactly once per evaluation (no short-circuit)");
+    vcover!(!a && b, "first false, second true");
+    std::mem::forget((s, f));
+}
+/// @h tier=thorough bound="Or over 2 operands, all answers" unwind=3 cost=9 timeout=2400 mem=28
+#[cfg_attr(kani, kani::proof)]
+#[cfg_attr(kani, kani::unwind(3))]
+pub fn h_c10_or2() {
+    let (a, b, _c) = setup_ops();
+    let f = Or::new([op::<0>(), op::<1>()]);
+    let mut s: State<TagP> = State::new();
+    let r = ok_bool(f.evaluate(&TagP, &mut s));
+    assert!(r == (a || b), "Or combines like the Boolean operator");
+    assert!(once(2), "Or evaluates every operand exactly once per evaluation (no short-circuit)");
+    vcover!(a && !b, "first true, second false");
+    std::mem::forget((s, f));
+}
+/// @h tier=quick bound="Not over 1 operand, all answers; init/require forwarded" unwind=3 cost=3 timeout=600
+#[cfg_attr(kani, kani::proof)]
+#[cfg_attr(kani, kani::unwind(3))]
+pub fn h_c10_not1() {
+    let (a, _b, _c) = setup_ops();
+    let f = Not::new(op::<0>());
+    let mut s: State<TagP> = State::new();
+    lifecycle(&*f, &mut s, 1);
+    let r = ok_bool(f.evaluate(&TagP, &mut s));
+    assert!(r == !a, "Not negates");
+    assert!(once(1), "Not evaluates its operand exactly once");
+    vcover!(r, "true");
+    std::mem::forget((s, f));
+}
+/// @h tier=thorough bound="Or over 3 operands, all answers" unwind=5 cost=9 timeout=2400 mem=28
+#[cfg_attr(kani, kani::proof)]
+#[cfg_attr(kani, kani::unwind(5))]
+pub fn h_c10_or3() {
+    let (a, b, c) = setup_ops();
+    let f = Or::new([op::<0>(), op::<1>(), op::<2>()]);
+    let mut s: State<TagP> = State::new();
+    lifecycle(&*f, &mut s, 3);
+    let r = ok_bool(f.evaluate(&TagP, &mut s));
+    assert!(r == (a || b || c), "Or combines like the Boolean operator");
+    assert!(once(3), "Or evaluates every operand exactly once per evaluation (no short-circuit)");
+    vcover!(a && !c, "first true, later false");
+    std::mem::forget((s, f));
+}
+/// @h tier=thorough bound="formula !(o0 & o1) | o2 built with the operators, all answers" unwind=5 cost=9 timeout=2400 mem=28
+#[cfg_attr(kani, kani::proof)]
+#[cfg_attr(kani, kani::unwind(5))]
+pub fn h_c10_formula_ops() {
+    let (a, b, c) = setup_ops();
+    let f = !(op::<0>() & op::<1>()) | op::<2>();
+    let mut s: State<TagP> = State::new();
+    lifecycle(&*f, &mut s, 3);
+    let r = ok_bool(f.evaluate(&TagP, &mut s));
+    assert!(r == (!(a && b) || c), "nested formulas combine like the Boolean operators");
+    assert!(once(3), "every operand of a nested formula is evaluated exactly once");
+    vcover!(r, "true");
+    vcover!(!r, "false");
+    std::mem::forget((s, f));
+}
+/// @h tier=thorough bound="Not(Or(o0, Not(o1))), all answers" unwind=5 cost=9 timeout=2400 mem=28
+#[cfg_attr(kani, kani::proof)]
+#[cfg_attr(kani, kani::unwind(5))]
+pub fn h_c10_formula_not_or() {
+    let (a, b, _c) = setup_ops();
+    let f = Not::new(Or::new([op::<0>(), Not::new(op::<1>())]));
+    let mut s: State<TagP> = State::new();
+    lifecycle(&*f, &mut s, 2);
+    let r = ok_bool(f.evaluate(&TagP, &mut s));
+    assert!(r == !(a || !b), "Not/Or combine like the Boolean operators");
+    assert!(once(2), "every operand is evaluated exactly once");
+    vcover!(r, "true");
+    std::mem::forget((s, f));
+}
+
+// ---- loops make exactly n passes -----------------------------------------------------------------------------------------
+
+static mut PASSES: u32 = 0;
+#[derive(Clone, Serialize)]
+pub struct Body;
+impl Component<TagP> for Body {
+    fn execute(&self, _p: &TagP, _s: &mut State<TagP>) -> ExecResult<()> {
+        unsafe { PASSES += 1 };
+        Ok(())
+    }
+}
+fn loop_n(n: u32) {
+    unsafe {
+        PASSES = 0;
+        ANS = [true; 3];
+        EVALS = [0; 3];
+    }
+    // the counting operand always answers true; And evaluates both operands on every test
+    let l = Loop::new(LessThanN::iterations::<TagP>(n) & op::<0>(), vec![Box::new(Body) as Box<dyn Component<TagP>>]);
+    let mut s: State<TagP> = State::new();
+    assert!(l.init(&TagP, &mut s).is_ok(), "loop init");
+    assert!(l.execute(&TagP, &mut s).is_ok(), "loop execute");
+    unsafe {
+        assert!(PASSES == n, "an iteration-bounded loop makes exactly n passes");
+        assert!(EVALS[0] as u32 == n + 1, "and tests its condition n+1 times");
+    }
+    assert!(s.try_get_value::<Iterations>().ok() == Some(n), "the pass counter equals n");
+    if n >= 1 {
+        assert!(s.try_get_value::<Progress<ValueOf<Iterations>>>().ok() == Some(1.0), "final progress is 1");
+    }
+    vcover!(true, "reached");
+    std::mem::forget((s, l));
+}
+/// @h tier=thorough bound="n = 0" unwind=4 cost=9 mem=28 timeout=2400
+#[cfg_attr(kani, kani::proof)]
+#[cfg_attr(kani, kani::unwind(4))]
+pub fn h_c10_loop_0() {
+    loop_n(0)
+}
+/// @h tier=thorough bound="n = 1" unwind=4 cost=9 mem=28 timeout=2400
+#[cfg_attr(kani, kani::proof)]
+#[cfg_attr(kani, kani::unwind(4))]
+pub fn h_c10_loop_1() {
+    loop_n(1)
+}
+/// @h tier=thorough bound="n = 2" unwind=5 cost=9 mem=28 timeout=1800
+#[cfg_attr(kani, kani::proof)]
+#[cfg_attr(kani, kani::unwind(5))]
+pub fn h_c10_loop_2() {
+    loop_n(2)
+}
